@@ -10,7 +10,7 @@ from skeleton import P, PE, pid_name
 
 RERUN_ON_CONFIGS = ("dfm", "std")
 LEVEL = "other"
-RULE_TEXT = ("C12-I: every construction of ParseError::Incomplete lies on a path whose condition is an end-of-input fact "
+RULE_TEXT = ("C12-P: the parser is a function of its arguments - no body of the library names a `static mut` or a static with interior mutability (atomics, cells, locks); positive control on synthetic items. C12-I: every construction of ParseError::Incomplete lies on a path whose condition is an end-of-input fact "
              "(first() is None; both parts of a take_while result empty; len() < needed) and every such length/emptiness "
              "test of the input leads to Incomplete; C12-M: Incomplete of a newline-transparent parser is never masked "
              "(= C08-I); C12-D: every take_while site either has a class without byte 10 (cannot run to the end of "
@@ -38,6 +38,47 @@ def run(ck):
     rule_T(ck, lib, sk)
     rule_W(ck, lib, sk)
     rule_L(ck, lib, sk)
+    rule_STATE(ck, lib, "C12-P")
+
+
+STATEFUL_TYPES = ("Atomic", "Cell<", "RefCell", "UnsafeCell", "Mutex", "RwLock", "OnceLock", "OnceCell", "LazyLock", "LazyCell", "Lazy<", "SyncUnsafeCell")
+
+
+def stateful_static(dk, ty):
+    """A `static` that can change at run time: `static mut`, or a type with interior mutability."""
+    return dk.startswith("Static") and ("Mut" in dk.replace("Mutability", "").replace("mutability", "") and "Not" not in dk or any(w in (ty or "") for w in STATEFUL_TYPES))
+
+
+def rule_STATE(ck, lib, rid="C12-P", scope=None):
+    """%s: the parser is a function of its arguments. No body of the library%s names a `static` that can change at run time
+    (`static mut`, atomics, cells, locks): a verdict that depends on such a static depends on earlier calls, not on the
+    consumed bytes.  The expected count is zero, so the matcher is exercised on two synthetic items on every run."""
+    # positive control of the matcher
+    ctl = stateful_static("Static { safety: Safe, mutability: Not, nested: false }", "core::sync::atomic::AtomicUsize") \
+        and stateful_static("Static { safety: Safe, mutability: Mut, nested: false }", "usize") \
+        and not stateful_static("Static { safety: Safe, mutability: Not, nested: false }", "microscpi::tree::Node") \
+        and not stateful_static("Const", "core::sync::atomic::AtomicUsize")
+    ck.judge(ctl, rid, "control:matcher-recognises-stateful-statics", "the matcher flags an atomic static and a `static mut`, and passes an immutable one", "the matcher for stateful statics is blind")
+    tys = {hir.base_path(b["def"]): (b["kind"], b.get("ty")) for b in lib.facts["bodies"] if b["kind"].startswith("Static")}
+    n = 0
+    bad = {}
+    for b in lib.facts["bodies"]:
+        base = hir.base_path(b["def"])
+        if scope and not base.startswith(scope):
+            continue
+        if b["kind"] not in ("Fn", "AssocFn"):
+            continue
+        n += 1
+        for x in hir.walk(b["value"]):
+            if x.get("k") == "Path" and (x.get("res") or {}).get("r") == "Def" and (x["res"].get("dk") or "").startswith("Static"):
+                path = x["res"]["path"]
+                kind, ty = tys.get(path, (x["res"]["dk"], x.get("ty")))
+                if stateful_static(kind if kind.startswith("Static") else x["res"]["dk"], ty or x.get("ty")) or stateful_static(x["res"]["dk"], x.get("ty")):
+                    bad[(base.split("::")[-1], path.split("::")[-1])] = hir.loc(x)
+    ck.judge(not bad, rid, "library:no-stateful-static", "%d function bodies name no static that can change at run time" % n,
+             "state outside the arguments: %s read or written - a verdict or an outcome then depends on earlier calls, not on the bytes of the message"
+             % ", ".join("static %s in %s" % (v_, f_) for (f_, v_) in sorted(bad)), loc=(sorted(bad.values())[0] if bad else None))
+    ck.floor(rid, "function bodies scanned for stateful statics", n, 40)
 
 
 def rule_L(ck, lib, sk):
